@@ -1735,8 +1735,9 @@ def bisim_check(tag, pairs, workers=10, timeout=3000):
     for prog, dump, override in pairs:
         j = dict(override if override is not None else prog.to_json())
         j["reps"] = boundary_reps(prog)
+        j["nobi"] = '"bi"' not in json.dumps(j["rules"]) and '"bi"' not in json.dumps(j["env"])
         arr.append({"prog": j, "dump": {k: dump[k] for k in ("dfa_pre", "dfa", "ctx", "entry_pre", "entry",
-                                                               "renumber", "switch_arms")}})
+                                                               "renumber", "switch_arms", "nfa") if k in dump}})
     with open(pj, "w") as f:
         json.dump(arr, f)
     res = run_tlc("Bisim.tla", "MC_Bisim.cfg", env={"VERIF_BISIM": pj}, workers=workers, timeout=timeout,
@@ -1744,6 +1745,19 @@ def bisim_check(tag, pairs, workers=10, timeout=3000):
     if not res.ok:
         raise ToolError("TLC failed on Bisim.tla (%s):\n%s" % (tag, res.error))
     return res, res.tagged.get("BAD", []), res.tagged.get("BADMAP", []), {x["p"] for x in res.tagged.get("SEEN", [])}
+
+
+def stages_check(tag, workers=10, timeout=3000):
+    """Thompson construction (exact NFA) and subset construction (product with NFA state sets) on
+    the same pairs file bisim_check wrote.  Returns (tlc, bad thompson ids, bad subset list)."""
+    from common import run_tlc, BUILD
+    pj = os.path.join(BUILD, tag, "bisim.json")
+    res = run_tlc("Stages.tla", "MC_Stages.cfg", env={"VERIF_BISIM": pj}, workers=workers, timeout=timeout,
+                  tag=tag + "_stages", heap="10g")
+    if not res.ok:
+        raise ToolError("TLC failed on Stages.tla (%s):\n%s" % (tag, res.error))
+    bad_th = [x["p"] for x in res.tagged.get("STAGE", []) if not x["thompson"]]
+    return res, bad_th, res.tagged.get("BADSUBSET", []), len(res.tagged.get("STAGE", []))
 
 
 ATOM_TXT = {"a": "'a'", "b": "'b'", "K": "['a'-'c']", "_": "_", "S": '"ab"', "D": "$", "B": "$$ascii_digit"}
@@ -2176,6 +2190,11 @@ def check_C02(tier, seed):
     res, bad, badmap, seen = bisim_check("C02", pairs, workers=12 if tier == "quick" else 14)
     for b_ in bad[:30]:
         bad_to_violation(out, "C02", b_, byid, "language differs")
+    st_res, bad_th, bad_sub, n_st = stages_check("C02", workers=12 if tier == "quick" else 14)
+    for pid_ in bad_th[:5]:
+        out.notes.append("NFA of program %d is not the one Stages.tla (Thompson construction) builds; its language is judged by the bisimulation" % pid_)
+    for b_ in bad_sub[:5]:
+        out.notes.append("DFA of program %d is not the subset construction of its dumped NFA after %s; its language is judged by the bisimulation" % (b_["p"], b_["path"]))
     # oracle self-check: declarative Ends / Open agree with the derivative automaton
     from common import run_tlc, BUILD
     sample = rnd.sample(progs, min(len(progs), sizes(tier, 300, 3000)))
@@ -2193,13 +2212,17 @@ def check_C02(tier, seed):
     other = replay_violations(out, fr, lambda evs: proj_tokens(evs, stop_at_invalid=False), rb,
                               "tokens of the lexer differ from the regex languages")
     out.coverage = {
-        "states": res.distinct + orc.distinct + fr.tlc.distinct,
-        "transitions": res.states + orc.states + fr.tlc.states,
+        "states": res.distinct + orc.distinct + fr.tlc.distinct + st_res.distinct,
+        "transitions": res.states + orc.states + fr.tlc.states + st_res.states,
         "traces_validated_against_impl": len(seen) + fr.ok_runs,
         "programs": len(allp),
         "automata_compared_with_reference": len(pairs),
         "of_which_against_an_equivalent_regex": crossed,
         "product_states": res.distinct,
+        "nfas_equal_to_thompson_spec": n_st - len(bad_th),
+        "nfas_differing_from_thompson_spec": len(bad_th),
+        "subset_product_states": st_res.distinct,
+        "subset_disagreements": len(bad_sub),
         "disagreements_checked": len(bad),
         "oracle_selfcheck_states": orc.distinct,
         "behaviours_replayed": fr.runs,
@@ -2213,7 +2236,9 @@ def check_C02(tier, seed):
                 "each small automaton is additionally compared with the reference automaton of an "
                 "equivalent regex (r+ / r r*, commuted |, string / character concatenation); TLC "
                 "checks that the declarative semantics (Ends, Open) and the derivative automaton "
-                "agree; a sample is compiled and run on all inputs of length <= 4",
+                "agree; Stages.tla: the NFA of every definition equals the one the specified Thompson "
+                "construction builds (state by state) and the DFA is the subset construction of that NFA "
+                "(product exploration); a sample is compiled and run on all inputs of length <= 4",
         "samples": [{"definition": progs[7].body(), "dump_states": len(dumps[progs[7].id]["dfa"])}] + fr.samples[:1],
         "tlc_cmd": res.cmd, "exhaustive": True,
         "mismatches_outside_projection": other,
@@ -2240,7 +2265,15 @@ def artifact_part(out, pid, tier, progs, what, need_bt=True):
             "desc": "state renumbering of program %d is inconsistent (injective %s, patterns %s, switch arms %s, inlining %s, simplify as specified %s, renumber as specified %s)" % (
                 m["p"], m["inj"], m["pat"], m["sw"], m["inl"], m.get("simp"), m.get("ren")),
             "payload": {"kind": "artifact", "program": prog.to_json(), "src": prog.body(), "indexmap": m}})
+    st_res, bad_th, bad_sub, n_st = stages_check(pid + "_art")
+    for pid_ in bad_th[:3]:
+        out.notes.append("NFA of program %d is not the one Stages.tla (Thompson construction) builds" % pid_)
+    for b_ in bad_sub[:3]:
+        out.notes.append("DFA of program %d is not the subset construction of its dumped NFA after %s" % (b_["p"], b_["path"]))
     cov = out.coverage
+    cov["nfas_equal_to_thompson_spec"] = n_st - len(bad_th)
+    cov["subset_product_states"] = st_res.distinct
+    cov["subset_disagreements"] = len(bad_sub)
     cov["automata_compared_with_reference"] = len(pairs)
     cov["product_states"] = res.distinct
     cov["states"] = cov.get("states", 0) + res.distinct
@@ -2362,6 +2395,14 @@ def big_family(seed, n, base_id):
                  F.simple_rule(alt(bi("ascii_digit"), bi("whitespace")))]
         out.append(Program(base_id + 6000 + i, [("Init", rules)], k=2))
     out += F.fixed_mm(base_id + 7000)
+    # chains of bracket sets that mix a range and a single character (fixed-width identifiers,
+    # digits with separators, ...): two arms lead to the same next state
+    for i, nrep in enumerate((8, 10, 12)):
+        item = set_([(48, 57), (95, 95)])
+        re = item
+        for _ in range(nrep - 1):
+            re = cat(re, item)
+        out.append(Program(base_id + 8000 + i, [("Init", [F.simple_rule(re), F.simple_rule(plus(set_([(97, 122)])))])], k=2))
     return out
 
 
@@ -2405,6 +2446,13 @@ def check_C12(tier, seed):
         if o["millis"] > 30000:
             out.violations.append({"key": key + " slow", "desc": "expansion of program %d took %d ms" % (p.id, o["millis"]),
                                    "payload": {"kind": "expansion", "program": p.to_json(), "src": p.body(), "millis": o["millis"]}})
+            continue
+        if o["code_len"] > 20_000_000:
+            # tens of megabytes of Rust for a definition of a few dozen rules: rustc cannot compile
+            # that "within seconds" (and the size grows exponentially with the definition)
+            out.violations.append({"key": key + " code size", "desc": "expansion of program %d (%d rules) is %d MB of code: not compilable in practice: %s" % (
+                p.id, len(p.rules()), o["code_len"] // 1000000, p.body().replace("\n", " ")[:200]),
+                "payload": {"kind": "expansion", "program": p.to_json(), "src": p.body(), "code_len": o["code_len"]}})
             continue
         slowest = max(slowest, o["millis"])
         n_ok += 1
